@@ -123,6 +123,74 @@ def dialClient (slots : List Slot) (env : Nat → Env) : Result :=
   | .failed => ⟨.lookupFailed, [], []⟩
   | .routes rs => loop env rs.length rs false
 
+/-- `DialClient` after the route lookup: what it does with the loader's (possibly cached) answer -/
+def dialWith (lk : Lookup) (env : Nat → Env) : Result :=
+  match lk with
+  | .notFound => ⟨.notFound, [], []⟩
+  | .failed => ⟨.lookupFailed, [], []⟩
+  | .routes rs => loop env rs.length rs false
+
+/-! ### several visitors: the route cache and the visitor's request context
+
+`DialClient(ctx, link)` looks the routes up with `s.routeCache.Get(s.ParentContext, H)`: the loading
+cache runs `routeCacheLoader` under the SERVER's context, never under the visitor's `ctx`, and keeps
+whatever the loader answered (routes, not-found, lookup-failed — each with its own TTL) for the next
+visitors of H. The visitor's `ctx` is only handed to `getConn` (`DialStream(ctx, …)`): a context that
+is already done makes every dial fail with the context error, which is not a no-direct error.
+Time is not modelled: the visits of one run happen within the shortest TTL (5 s). -/
+
+/-- the visitor's request context as far as `DialClient` can observe it -/
+inductive Visitor where
+  | live             -- stays alive for the whole call
+  | gone             -- already cancelled / past its deadline when `DialClient` is called
+  | leavesInLookup   -- is cancelled while the KV lookups for H are in flight (only if there are any)
+deriving DecidableEq, Repr
+
+/-- the route cache: hostname ↦ what the loader answered the first time -/
+abbrev Cache := List (String × Lookup)
+
+def cacheGet (c : Cache) (h : String) : Option Lookup := (c.find? (fun p => p.1 == h)).map (·.2)
+
+/-- `s.routeCache.Get(s.ParentContext, H)`: a hit returns the stored answer without touching the KV; a
+miss runs the loader — under the parent context, so the visitor's context plays no role — and stores
+its answer. The Bool says whether the loader ran. -/
+def cachedLookup (c : Cache) (h : String) (slots : List Slot) : Lookup × Cache × Bool :=
+  match cacheGet c h with
+  | some lk => (lk, c, false)
+  | none => (lookup slots, (h, lookup slots) :: c, true)
+
+/-- is the visitor's context done by the time the routes are dialled? -/
+def visitorDone : Visitor → Bool → Bool
+  | .live, _ => false
+  | .gone, _ => true
+  | .leavesInLookup, loaderRan => loaderRan
+
+/-- dialling on behalf of a visitor whose context is done: `DialStream(ctx, …)` returns the context
+error (a hard error) whatever the peer would have answered -/
+def effEnv (done : Bool) (env : Nat → Env) : Nat → Env :=
+  fun i => if done then { env i with dial := .err } else env i
+
+structure Visit where
+  host : String
+  slots : List Slot      -- what the KV holds for `host` at the time of the visit
+  env : Nat → Env        -- how the world answers when a route is dialled
+  vis : Visitor
+
+structure VisitOut where
+  result : Result
+  kvGets : Nat           -- number of `Chord.Get` calls made during this `DialClient`
+deriving DecidableEq, Repr
+
+/-- one `DialClient` call against the server's route cache -/
+def visit (c : Cache) (v : Visit) : Cache × VisitOut :=
+  let (lk, c', ran) := cachedLookup c v.host v.slots
+  (c', ⟨dialWith lk (effEnv (visitorDone v.vis ran) v.env), if ran then v.slots.length else 0⟩)
+
+/-- a sequence of visits, first to last -/
+def run : Cache → List Visit → List VisitOut
+  | _, [] => []
+  | c, v :: vs => (visit c v).2 :: run (visit c v).1 vs
+
 /-! ### remote side: `handleProxyConn` -/
 
 /-- what the remote node reads from the proxy stream -/
